@@ -347,11 +347,13 @@ func (s *Server) nextMsgID(parity int64) int64 {
 // ---------- connection ----------
 
 type Conn struct {
-	S        *Server
-	c        net.Conn
-	ID       int
-	abridged bool
-	wmu      sync.Mutex
+	// SplitNext > 0: the next frame written is cut after that many bytes (modulo its length) and sent in two pieces
+	SplitNext int
+	S         *Server
+	c         net.Conn
+	ID        int
+	abridged  bool
+	wmu       sync.Mutex
 
 	// encrypted session state
 	key     *KeyInfo
@@ -419,6 +421,17 @@ func (c *Conn) WriteFrame(b []byte) error {
 		f = ref.FrameAbridged(b)
 	} else {
 		f = ref.FrameIntermediate(b)
+	}
+	if k := c.SplitNext; k > 0 {
+		// the network delivers this frame in two pieces with a pause between them
+		c.SplitNext = 0
+		k = 1 + (k-1)%(len(f)-1)
+		if _, err := c.c.Write(f[:k]); err != nil {
+			return err
+		}
+		time.Sleep(3 * time.Millisecond)
+		_, err := c.c.Write(f[k:])
+		return err
 	}
 	_, err := c.c.Write(f)
 	return err
